@@ -9,7 +9,7 @@ from ..core import Disc, Subcheck, exc_detail, exc_key
 
 PROPERTY_ID = 'C15'
 LEVEL = 'exploration'
-RULE = ('relay: the parsed definitions are exported by another object and ITS XML parsed again (second generation) with the same '
+RULE = ('Member names include case variants, and in every second interface signals are named like methods. relay: the parsed definitions are exported by another object and ITS XML parsed again (second generation) with the same '
         'comparison. '
         '1-3 generated interfaces, each 0-6 methods / signals / properties whose signatures are concatenations of 0-4 '
         'complete types from the full grammar (containers, nested structs, dict entries, unix fds), all four '
@@ -308,6 +308,8 @@ def classify(case):
             low = [m['name'].lower() for m in spec[kind]]
             if len(set(low)) != len(low):
                 labels.append('names_differing_only_in_case')
+        if {m['name'] for m in spec['methods']} & {m['name'] for m in spec['signals']}:
+            labels.append('method_and_signal_share_a_name')
     if case['preregister']:
         labels.append('known_' + ('replace' if case['replace'] else 'reuse'))
     if case['children']:
@@ -334,7 +336,8 @@ def gen_case(draw, tier):
         ifaces.append({
             'name': 'org.verif.I%d' % k,
             'methods': [{'name': n, 'in': draw(sig), 'out': draw(sig)} for n in mn],
-            'signals': [{'name': n + 'Sig', 'sig': draw(sig)} for n in sn],
+            # methods and signals have name spaces of their own: in every second interface signals may be called like methods
+            'signals': [{'name': n + ('Sig' if k % 2 else ''), 'sig': draw(sig)} for n in sn],
             'props': [{'name': n + 'Prop', 'sig': draw(single), 'r': draw(st.booleans()), 'w': draw(st.booleans()),
                        'emits': draw(st.sampled_from(['true', 'false', 'invalidates']))} for n in pn],
         })
